@@ -138,8 +138,12 @@ def parse_ty(toks, i=0):
         n = int(toks[i + 1])
         return ('iface', toks[i + 2:i + 2 + n]), i + 2 + n
     if t == 'strct':
-        n = int(toks[i + 1])
-        j = i + 2
+        nv = int(toks[i + 1])
+        j = i + 2 + nv
+        np_ = int(toks[j])
+        j = j + 1 + np_
+        n = int(toks[j])
+        j += 1
         fs = []
         for _ in range(n):
             name = toks[j]
@@ -167,6 +171,7 @@ class Cat:
     def __init__(self, lines):
         self.types = {}
         self.multis = []
+        self.pairs2, self.variadics, self.meths = [], [], []
         for ln in lines:
             if ln.startswith('type '):
                 head, term = ln.split(' ;; ', 1)
@@ -181,6 +186,12 @@ class Cat:
             elif ln.startswith('multi '):
                 f = ln.split()
                 self.multis.append((f[1], f[2].split(',')))
+            elif ln.startswith('pair2 '):
+                self.pairs2.append(tuple(ln.split()[1:3]))
+            elif ln.startswith('variadic '):
+                self.variadics.append(ln.split()[1])
+            elif ln.startswith('meth '):
+                self.meths.append(ln.split()[1])
         self.names = list(self.types)
         # what can be *supplied*: the dynamic type of an interface{} is never an interface type
         self.sups = [n for n in self.names if self.types[n]['kind'] != 'iface']
@@ -269,7 +280,8 @@ class ValGen:
             d = self.cat.types[dn]
             return ['iof', dn] + self.payload(d['ty'], 'rand', nan_ok, dn)
         if k in ('ptr', 'map', 'slice', 'chan'):
-            return ['z'] if mode == 'zero' else ['r' + str(r.below(6))]
+            # r100.. are non-nil but hold only zero content (pointer to a zero value, empty non-nil slice/map)
+            return ['z'] if mode == 'zero' else ['r' + str(r.choice([0, 1, 2, 3, 4, 5, 100, 101]))]
         if k == 'func':
             has = name is not None and self.cat.types[name]['funcs']
             return ['z'] if (mode == 'zero' or not has) else ['r' + str(r.below(4))]
@@ -312,6 +324,8 @@ def sup_modes(cat, out, sup, rng):
         return ['zero']          # would be reinterpreted as pointers: zero payload only
     if out != sup and o['kind'] == 'strct' and s['kind'] == 'strct' and s['size'] == o['size'] and s['layout'] != o['layout'] and pointerish_layout(o['layout']):
         return ['zero']
+    if out != sup and o['kind'] == 'strct' and s['kind'] == 'strct' and s['size'] == o['size'] and pointerish_layout(o['layout']):
+        return ['zero']          # identical layout with pointer fields: the pointees may differ in type; nil pointers only
     return ['zero', 'rand']
 
 
@@ -401,10 +415,12 @@ def gen_ops(cat, rng, tier):
             if cat.types[o]['kind'] == 'iface':
                 sup = rng.choice([x for x in sups if o in cat.types[x]['impl'] and not icx(x)])
             used.append(sup)
+            if is_anyslice(sup):      # a bare []interface{} IS the list form (documented flattening): to supply the slice itself, wrap it
+                return ['list', '1'] + box(cat, vg, sup, 'zero' if form == 'one-zero' else 'rand')
             return ['one'] + box(cat, vg, sup, 'zero' if form == 'one-zero' else 'rand')
         if form == 'one-other':
             o = outs[0]
-            sup = rng.choice([x for x in sups if not icx(x)])
+            sup = rng.choice([x for x in sups if not icx(x) and not is_anyslice(x)])
             used.append(sup)
             return ['one'] + box(cat, vg, sup, 'zero')
         n = len(outs) + (0 if form == 'list' else rng.choice([-1, 1]))
@@ -422,6 +438,7 @@ def gen_ops(cat, rng, tier):
         return toks
 
     icx = lambda n: 'IContext' in cat.types[n]['gostr']
+    is_anyslice = lambda n: cat.types[n]['gostr'] == '[]interface_{}'
     for out in names:
         if icx(out):
             continue
@@ -448,6 +465,101 @@ def gen_ops(cat, rng, tier):
             for _ in range(k):
                 toks += group_for(outs, rng.choice(['list', 'list', 'list', 'list-bad', 'one-nil']), used)
             add('seq', ['c09.seq', str(len(outs))] + outs + [str(k)] + toks, used)
+    # ---- lanes added after the review
+    def pick_sup(o, kind):
+        """a supplied type for declared type o: 'same', 'nil', 'standin'/'boxed' (if any), 'samesize', 'other'"""
+        ot = cat.types[o]
+        if kind == 'nil':
+            return None
+        if kind == 'same' and ot['kind'] != 'iface':
+            return o if not is_anyslice(o) else None      # a bare []interface{} in When/In is a tuple of conditions, not a value
+        cands = []
+        if kind in ('same', 'boxed'):
+            cands = [x for x in sups if o in cat.types[x]['impl'] and not icx(x) and not is_anyslice(x)]
+        elif kind == 'standin':
+            cands = [x for x in sups if x != o and classify(cat, o, x) == 'standin']
+        elif kind == 'samesize':
+            cands = [x for x in sups if x != o and cat.types[x]['size'] == ot['size'] and not icx(x) and not is_anyslice(x)]
+        elif kind == 'other':
+            cands = [x for x in sups if cat.types[x]['size'] != ot['size'] and not icx(x) and not is_anyslice(x)]
+        return rng.choice(cands) if cands else (o if ot['kind'] != 'iface' and not is_anyslice(o) else None)
+
+    def box_for(o, kind, used, nan_ok=False):
+        sup = pick_sup(o, kind)
+        if sup is None:
+            return ['nil']
+        used.append(sup)
+        modes = sup_modes(cat, o, sup, rng)
+        return box(cat, vg, sup, rng.choice(modes), nan_ok)
+
+    KINDS = ['same', 'same', 'nil', 'standin', 'boxed', 'samesize', 'other']
+    params = [n for n in names if not icx(n)]
+    # lane in: ONE arg.In(v1..vk) object used on two functions with different declared parameter types
+    for p1 in params:
+        for _ in range(4 * reps):
+            p2 = rng.choice(params)
+            if rng.chance(1, 2):
+                same = [x for x in params if x != p1 and cat.types[x]['size'] == cat.types[p1]['size']]
+                if same:
+                    p2 = rng.choice(same)
+            used = [p1, p2]
+            k = 1 + rng.below(3)
+            toks = []
+            for _ in range(k):
+                toks += box_for(rng.choice([p1, p1, p2]), rng.choice(['same', 'same', 'standin', 'nil']), used)
+            add('in', ['c09.in', p1, p2, str(k)] + toks, used)
+    # lane when2: When(a, b) on func(A, B) int — each value converted at the type of ITS position
+    for a, b in cat.pairs2:
+        for _ in range(40 * reps):
+            used = [a, b]
+            ka, kb = rng.choice(KINDS), rng.choice(KINDS)
+            if rng.chance(1, 4):       # the other position's type supplied here
+                ta = box_for(b, 'same', used) if cat.types[b]['kind'] != 'iface' else ['nil']
+            else:
+                ta = box_for(a, ka, used)
+            add('when2', ['c09.when2', a, b] + ta + box_for(b, kb, used), used)
+    # lane whenv: When(x1..xk) on func(xs ...T) int — every value converted at the element type
+    for e in cat.variadics:
+        for _ in range(40 * reps):
+            used = [e]
+            k = rng.below(4)
+            toks = []
+            for _ in range(k):
+                toks += box_for(e, rng.choice(KINDS), used)
+            add('whenv', ['c09.whenv', e, str(k)] + toks, used)
+    # lane whenseq / whenand: When(1).Returns(g1..gk) and When(1).Return(g1).AndReturn(g2)... (conditional result sequences)
+    for out in names:
+        if icx(out):
+            continue
+        for lane in ('c09.whenseq', 'c09.whenand'):
+            for _ in range(reps):
+                k = 1 + rng.below(3)
+                used = [out]
+                toks = []
+                for _ in range(k):
+                    toks += group_for([out], rng.choice(['one-nil', 'one', 'one', 'one-zero', 'list']), used)
+                add(lane[4:], [lane, '1', out, str(k)] + toks, used)
+    for mname, outs in cat.multis:
+        for lane in ('c09.whenseq', 'c09.whenand'):
+            for _ in range(4 * reps):
+                k = 1 + rng.below(3)
+                used = list(outs)
+                toks = []
+                for _ in range(k):
+                    toks += group_for(outs, rng.choice(['list', 'list', 'list', 'list-bad']), used)
+                add(lane[4:], [lane, str(len(outs))] + outs + [str(k)] + toks, used)
+    # lane meth: Return(...) on a method mock (m) and on an interface-variable mock (i)
+    for out in cat.meths:
+        for how in ('m', 'i'):
+            add('meth', ['c09.meth', how, out, '1', 'nil'], [out])
+            for sup in sups:
+                o, sp = cat.types[out], cat.types[sup]
+                if not (sup == out or o['kind'] == 'iface' or sp['size'] == o['size'] or rng.chance(1, 8) or tier == 'thorough'):
+                    continue
+                for mode in sup_modes(cat, out, sup, rng):
+                    for _ in range(1 if mode == 'zero' else reps):
+                        add('meth', ['c09.meth', how, out, '1'] + box(cat, vg, sup, mode), [out, sup])
+            add('meth', ['c09.meth', how, out, '2', 'nil', 'nil'], [out])
     # lane i2v: arity and variadic handling, directly
     slices = [n for n in names if cat.types[n]['kind'] == 'slice']
     for _ in range(300 * reps):
@@ -485,7 +597,7 @@ def gen_ops(cat, rng, tier):
 
 PROBE_TEST = 'TestVerifC09'
 LANES_ARG = ('c09.tv', 'c09.isz', 'c09.i2v')
-LANES_MOCKER = ('c09.ret', 'c09.eval', 'c09.when', 'c09.matches', 'c09.seq')
+LANES_MOCKER = ('c09.ret', 'c09.eval', 'c09.when', 'c09.matches', 'c09.seq', 'c09.in', 'c09.when2', 'c09.whenv', 'c09.whenseq', 'c09.whenand', 'c09.meth')
 _bins = None
 
 
@@ -515,7 +627,10 @@ def load_catalog():
                           env={'VERIF_C09_CATALOG': path})
     if rc != 0 or not os.path.exists(path):
         raise C.Infra('catalogue dump failed:\n' + log[-2000:])
-    return Cat([l.rstrip('\n') for l in open(path)])
+    cat = Cat([l.rstrip('\n') for l in open(path)])
+    if len(cat.names) < 90 or not cat.multis or not cat.pairs2 or not cat.variadics or not cat.meths:
+        raise C.Infra(f'catalogue dump is incomplete: {len(cat.names)} types, {len(cat.multis)} multi, {len(cat.pairs2)} pair2, {len(cat.variadics)} variadic, {len(cat.meths)} meth')
+    return cat
 
 
 def execute(ops, tag='c09'):
@@ -524,20 +639,44 @@ def execute(ops, tag='c09'):
     ops_path = os.path.join(C.BUILD, f'{tag}.ops')
     open(ops_path, 'w').write('\n'.join(ops) + '\n')
     raw = [None] * len(ops)
+    # the probes run in a scrubbed environment: goom's own knobs must not change what is observed
+    scrub = {'GOOM_DEBUG': '', 'GODEBUG': '', 'GOGC': '', 'GOTRACEBACK': 'single'}
     for ptag in ('c09-arg', 'c09-mocker'):
+        lanes = LANES_ARG if ptag == 'c09-arg' else LANES_MOCKER
+        mine = [i for i, op in enumerate(ops) if op.split()[0] in lanes]
         outp = os.path.join(C.BUILD, f'{tag}.{ptag}.impl')
-        rc, log = C.run_probe(bins[ptag], PROBE_TEST, ops_path, outp)
-        got = C.read_indexed(outp, len(ops))
+        for attempt in (1, 2):
+            # typical wall time is 1-3 s; the timeout is generous (>= 100x) and a failed run is repeated ONCE:
+            # a crash that reproduces is an observation, a hiccup that does not is not
+            try:
+                rc, log = C.run_probe(bins[ptag], PROBE_TEST, ops_path, outp, env=scrub, timeout=1800)
+            except Exception as e:      # timeout of the whole process
+                rc, log = -1, f'probe did not finish: {e}'
+            got = C.read_indexed(outp, len(ops))
+            if rc == 0 or attempt == 2:
+                break
+            C.log(f'probe {ptag} exited rc={rc} on attempt 1; running it once more\n{log[-600:]}')
         for i, v in enumerate(got):
             if v is not None:
                 raw[i] = v
         if rc != 0:
-            # a crash inside patched code / reflect kills the process: report the first op without an observation
-            lanes = LANES_ARG if ptag == 'c09-arg' else LANES_MOCKER
-            first = next((i for i, op in enumerate(ops) if op.split()[0] in lanes and raw[i] is None), None)
+            # reproduced: a crash inside patched code / reflect kills the process: the first op without an observation is the culprit
+            first = next((i for i in mine if raw[i] is None), None)
             if first is not None:
-                raw[first] = 'crash:' + C.sh(['tail', '-c', '300'], input=log)[1].replace('\n', ' ')[:200] if False else 'crash'
-            C.log(f'probe {ptag} exited rc={rc}; first unobserved op index {first}\n{log[-1500:]}')
+                raw[first] = 'crash'
+            C.log(f'probe {ptag} exited rc={rc} twice; first unobserved op index {first}\n{log[-1500:]}')
+        elif mine and any(raw[i] is None for i in mine):
+            n = sum(1 for i in mine if raw[i] is None)
+            raise C.Infra(f'probe {ptag} exited 0 but left {n} of {len(mine)} of its operations unobserved (machinery error, not a statement about the property)')
+    # floors: a lane that silently ran nothing must fail loudly
+    per_lane = {}
+    for i, op in enumerate(ops):
+        ln = op.split()[0]
+        a, b = per_lane.get(ln, (0, 0))
+        per_lane[ln] = (a + 1, b + (raw[i] is not None))
+    for ln, (n, seen) in per_lane.items():
+        if n >= 20 and seen < n // 2 and not any(r == 'crash' for r in raw):
+            raise C.Infra(f'lane {ln}: only {seen} of {n} operations observed (machinery error)')
     impl, facts = [], []
     for r in raw:
         if r is None:
@@ -573,12 +712,28 @@ def parse_op(cat, op):
         return {'lane': lane, 'outs': [toks[1]], 'boxes': [b]}
     if lane == 'c09.isz':
         return {'lane': lane, 'outs': [], 'boxes': [toks[1]], 'payload': toks[2:]}
-    if lane in ('c09.matches', 'c09.seq'):
+    if lane in ('c09.in', 'c09.whenv', 'c09.when2', 'c09.meth'):
+        if lane == 'c09.in':
+            outs, k, i = [toks[1], toks[2]], int(toks[3]), 4
+        elif lane == 'c09.whenv':
+            outs, k, i = [toks[1]], int(toks[2]), 3
+        elif lane == 'c09.when2':
+            outs, k, i = [toks[1], toks[2]], 2, 3
+        else:
+            outs, k, i = [toks[2]], int(toks[3]), 4
+        boxes = []
+        for _ in range(k):
+            b, i = read_box(i)
+            boxes.append(b)
+        if lane == 'c09.whenv':
+            outs = outs * k
+        return {'lane': lane, 'outs': outs, 'boxes': boxes}
+    if lane in ('c09.matches', 'c09.seq', 'c09.whenseq', 'c09.whenand'):
         nt = int(toks[1])
         outs = toks[2:2 + nt]
         i = 2 + nt
         ng = 1
-        if lane == 'c09.seq':
+        if lane != 'c09.matches':
             ng = int(toks[i])
             i += 1
         groups = []
@@ -614,17 +769,23 @@ def parse_op(cat, op):
     return {'lane': lane, 'outs': [], 'boxes': []}
 
 
-def payload_all_zero(toks):
+NEG_ZERO = str(1 << 63)
+
+
+def payload_all_zero(toks, neg_zero_is_zero=False):
     """every leaf of the payload is the all-zero-bits value (so the Go value is the zero value of its type)"""
+    zf = ('0', NEG_ZERO) if neg_zero_is_zero else ('0',)
     i = 0
     while i < len(toks):
         t = toks[i]
         if t == 'agg':
             i += 2
         elif t == 'c':
-            if toks[i + 1] != '0' or toks[i + 2] != '0':
+            if toks[i + 1] not in zf or toks[i + 2] not in zf:
                 return False
             i += 3
+        elif neg_zero_is_zero and t == 'f' + NEG_ZERO:
+            i += 1
         elif t in ('b0', 'i0', 'u0', 'f0', 's-', 'z', 'inil'):
             i += 1
         else:
@@ -691,6 +852,33 @@ def cross_rep(cat, sup, out):
             and (s['kind'] != o['kind'] or s['direct'] != o['direct']))
 
 
+def judge_when_multi(cat, lane, outs, boxes, obs, facts):
+    """When(x1..xk) / arg.In(x1..xk): every value is converted at the declared type of the position / function it is used for,
+    a value that cannot be a value of that type is rejected, and an accepted one answers a call with that very value."""
+    def one(decl, bs, state, matches, what):
+        wants = [classify(cat, d, b) for d, b in zip(decl, bs)]
+        if 'reject' in wants:
+            return None if state != 'ok' else f'{what}: {bs} accepted where {decl} is declared (must be rejected, not reinterpreted)'
+        if all(w is not None for w in wants) and bs:
+            if state != 'ok':
+                return f'{what}: {wants}: {bs} must be accepted where {decl} is declared, got {state}'
+            for m in matches:
+                if m not in ('1', '-'):
+                    return f'{what}: an accepted value does not answer the call made with that very value (match={m})'
+        return None
+    if lane == 'c09.in':
+        kv = dict(x.split('=', 1) for x in obs.split())
+        for t, p in (('1', outs[0]), ('2', outs[1])):
+            why = one([p] * len(boxes), boxes, kv.get('t' + t), facts.get('m' + t, '-').split(','), f'In(...) used on func({p})')
+            if why:
+                return why
+        return None
+    why = one(outs, boxes, obs.split()[0], [facts.get('match', '-')], 'When(...)')
+    if why is None and lane == 'c09.whenv' and obs.startswith('ok') and boxes and facts.get('match') == '1' and facts.get('fewer') == '1':
+        return 'When(x1..xk) on a variadic function also answers the call with one argument fewer'
+    return why
+
+
 def judge_call(cat, lane, outs, boxes, obs, facts):
     """The property on one configured stub + one call: `boxes` supplied where `outs` is declared, `obs` observed."""
     f = obs.split()
@@ -744,6 +932,8 @@ def oracle(cat, op, obs, facts):
         if obs not in ('true', 'false'):
             return 'isZero did not return: ' + obs
         allzero = payload_all_zero(p['payload'])
+        if not allzero and payload_all_zero([t for t in p['payload']], neg_zero_is_zero=True):
+            return None     # only -0.0 leaves differ: V2I feeds isZero pointers/interfaces only, so either answer keeps the property
         if obs != str(allzero).lower():
             return f'isZero = {obs} on a value whose bits are {"all" if allzero else "not all"} zero'
         return None
@@ -757,6 +947,14 @@ def oracle(cat, op, obs, facts):
                 return 'I2V accepted a wrong number of values'
         return None
     outs, boxes = p['outs'], p['boxes']
+    if lane in ('c09.in', 'c09.when2', 'c09.whenv'):
+        return judge_when_multi(cat, lane, outs, boxes, obs, facts)
+    if lane == 'c09.meth':
+        lane = 'c09.ret'
+    if lane in ('c09.whenseq', 'c09.whenand'):
+        if obs.startswith('got') and facts.get('dflt') != 'true':
+            return 'after When(1).Returns(...) a non-matching argument no longer gets the default results'
+        lane = 'c09.seq'
     if lane in ('c09.tv', 'c09.ret', 'c09.eval', 'c09.matches') and len(outs) == 1 and len(boxes) == 1:
         inside = cross_rep(cat, boxes[0], outs[0])
         if inside != ('unmodelled' in obs):
@@ -774,7 +972,7 @@ def oracle(cat, op, obs, facts):
         if not delivered:
             return f'{want}: supplying {boxes[0] or "nil"} where {outs[0]} is declared must be accepted, got {obs}'
         if lane == 'c09.when':
-            if facts.get('match') not in ('1', '-') and want in ('zero', 'same'):
+            if facts.get('match') not in ('1', '-') and want in ('zero', 'same', 'boxed', 'standin'):
                 return f'When({boxes[0] or "nil"}) does not match the same value passed as argument (match={facts.get("match")})'
             if facts.get('near') == '1' and want == 'same':
                 return f'When({boxes[0]}) also answers a call whose argument differs in its lowest bit / by one appended byte: the value was altered before comparison'
@@ -879,7 +1077,7 @@ def run(tier):
     demand = {}
     for op in ops:
         p = parse_op(cat, op)
-        if p['lane'] in ('c09.tv', 'c09.ret', 'c09.when', 'c09.eval', 'c09.matches') and len(p['outs']) == len(p['boxes']):
+        if p['lane'] in ('c09.tv', 'c09.ret', 'c09.when', 'c09.eval', 'c09.matches', 'c09.meth', 'c09.when2', 'c09.whenv') and len(p['outs']) == len(p['boxes']):
             for o, b in zip(p['outs'], p['boxes']):
                 w = classify(cat, o, b) or 'unstated'
                 demand[w] = demand.get(w, 0) + 1
